@@ -657,6 +657,220 @@ fn scen_reload_burial(confs: i64, dust: i64) -> Out {
 	o
 }
 
+/// A two-part payment over two channels between the same two nodes, the parts expiring `gap` blocks
+/// apart; `order` = 0 delivers the earlier-expiring part first, 1 delivers it last. The advertised claim
+/// deadline must be (earliest expiry of ALL parts) - HTLC_FAIL_BACK_BUFFER: strictly below it nothing is
+/// failed back and claim_funds claims everything; from it on the node fails the payment back itself.
+fn scen_mppdeadline(order: i64, gap: i64) -> Out {
+	let k = consts();
+	let hfb = k["HTLC_FAIL_BACK_BUFFER"];
+	let mut o = Out::new("mppdeadline", format!("mppdeadline {} {}", order, gap));
+	let chanmon_cfgs = create_chanmon_cfgs(2);
+	let node_cfgs = create_node_cfgs(2, &chanmon_cfgs);
+	let legacy = test_legacy_channel_config();
+	let node_chanmgrs = create_node_chanmgrs(2, &node_cfgs, &[Some(legacy.clone()), Some(legacy)]);
+	let nodes = create_network(2, &node_cfgs, &node_chanmgrs);
+	for n in nodes.iter() {
+		*n.connect_style.borrow_mut() = ConnectStyle::BestBlockFirst;
+	}
+	let c1 = create_announced_chan_between_nodes(&nodes, 0, 1);
+	let c2 = create_announced_chan_between_nodes(&nodes, 0, 1);
+	let node_a_id = nodes[0].node.get_our_node_id();
+	let total = 2_000_000u64;
+	let (mut route, hash, preimage, secret) = get_route_and_payment_hash!(nodes[0], nodes[1], total);
+	// two single-hop paths, one per channel, the second expiring `gap` blocks later
+	let mut p1 = route.paths[0].clone();
+	let mut p2 = route.paths[0].clone();
+	p1.hops[0].short_channel_id = c1.0.contents.short_channel_id;
+	p2.hops[0].short_channel_id = c2.0.contents.short_channel_id;
+	p1.hops[0].fee_msat = total / 2;
+	p2.hops[0].fee_msat = total / 2;
+	p2.hops[0].cltv_expiry_delta += gap as u32;
+	route.paths = vec![p1, p2];
+	route.route_params.payment_params.max_path_count = 2;
+	let onion = RecipientOnionFields::secret_only(secret, total);
+	nodes[0].node.send_payment_with_route(route, hash, onion, PaymentId(hash.0)).unwrap();
+	check_added_monitors(&nodes[0], 2);
+	let mut evs = nodes[0].node.get_and_clear_pending_msg_events();
+	if evs.len() != 2 {
+		o.fail("harness: expected two update_add batches");
+		std::mem::forget(nodes);
+		return o;
+	}
+	let mut sends: Vec<SendEvent> = evs.drain(..).map(SendEvent::from_event).collect();
+	// sort: earlier-expiring part first
+	sends.sort_by_key(|s| s.msgs[0].cltv_expiry);
+	if order == 1 {
+		sends.reverse();
+	}
+	let expiries: Vec<u32> = sends.iter().map(|s| s.msgs[0].cltv_expiry).collect();
+	let min_exp = *expiries.iter().min().unwrap();
+	let mut deadline: Option<u32> = None;
+	let mut claimable_amt = 0u64;
+	for s in sends.iter() {
+		nodes[1].node.handle_update_add_htlc(node_a_id, &s.msgs[0]);
+		do_commitment_signed_dance(&nodes[1], &nodes[0], &s.commitment_msg, false, false);
+		nodes[1].node.process_pending_htlc_forwards();
+		for e in nodes[1].node.get_and_clear_pending_events() {
+			if let Event::PaymentClaimable { claim_deadline, amount_msat, .. } = e {
+				deadline = claim_deadline;
+				claimable_amt = amount_msat;
+			}
+		}
+	}
+	o.obs("expiries", format!("{:?}", expiries).replace('"', ""));
+	o.obs("advertised_deadline", deadline.map(|d| d as i64).unwrap_or(-1));
+	o.obs("model_deadline", min_exp - hfb);
+	o.obs("claimable_amt", claimable_amt);
+	let d = match deadline {
+		Some(d) => d,
+		None => {
+			o.fail("complete two-part payment not shown as claimable");
+			std::mem::forget(nodes);
+			return o;
+		},
+	};
+	if d != min_exp - hfb {
+		o.fail("advertised claim deadline is not (earliest expiry over ALL parts) - HTLC_FAIL_BACK_BUFFER");
+	}
+	// go to one block below the advertised deadline: nothing may have been failed back, the claim must work
+	let h_now = nodes[1].best_block_info().1;
+	if d > h_now + 1 {
+		connect_blocks(&nodes[1], d - 1 - h_now);
+	}
+	nodes[1].node.process_pending_htlc_forwards();
+	let evs = nodes[1].node.get_and_clear_pending_events();
+	let failed_early = evs.iter().any(|e| matches!(e, Event::HTLCHandlingFailed { .. }));
+	let msgs = nodes[1].node.get_and_clear_pending_msg_events();
+	let sent_fail = msgs.iter().any(|m| matches!(m, MessageSendEvent::UpdateHTLCs { updates, .. } if !updates.update_fail_htlcs.is_empty()));
+	o.obs("height_before_claim", nodes[1].best_block_info().1);
+	if failed_early || sent_fail {
+		o.fail("a part of the payment was failed back strictly below the advertised claim deadline");
+	}
+	nodes[1].chain_monitor.added_monitors.lock().unwrap().clear();
+	nodes[1].node.claim_funds(preimage);
+	let evs2 = nodes[1].node.get_and_clear_pending_events();
+	let claimed: Option<u64> = evs2.iter().find_map(|e| if let Event::PaymentClaimed { amount_msat, .. } = e { Some(*amount_msat) } else { None });
+	o.obs("claimed_amt", claimed.map(|a| a as i64).unwrap_or(-1));
+	if !(failed_early || sent_fail) && claimed != Some(total) {
+		o.fail("claim_funds strictly below the advertised claim deadline did not claim the full amount");
+	}
+	for n in nodes.iter() {
+		let _ = n.node.get_and_clear_pending_events();
+		let _ = n.node.get_and_clear_pending_msg_events();
+		n.chain_monitor.added_monitors.lock().unwrap().clear();
+	}
+	std::mem::forget(nodes);
+	o
+}
+
+/// A forwarded HTLC waits in B's holding cell (B -> C is awaiting a revoke_and_ack from a silent C).
+/// Blocks arrive one at a time at B. By the first height at which the HTLC's outgoing expiry is within
+/// LATENCY_GRACE_PERIOD_BLOCKS the HTLC must have been failed back upstream (it can no longer be
+/// forwarded safely) -- never silently dropped. `splice` = 1: a splice of the B-C channel reaches its
+/// confirmation depth `off` blocks relative to that height (0 = in the very same block).
+fn scen_holdcell(splice: i64, off: i64) -> Out {
+	use bitcoin::{Amount, TxOut};
+	use lightning::ln::splicing_tests::{initiate_splice_out, splice_channel};
+	use lightning::util::wallet_utils::WalletSourceSync;
+	let k = consts();
+	let (lgp, ard) = (k["LATENCY_GRACE_PERIOD_BLOCKS"], k["ANTI_REORG_DELAY"]);
+	let mut o = Out::new("holdcell", format!("holdcell {} {}", splice, off));
+	let chanmon_cfgs = create_chanmon_cfgs(3);
+	let node_cfgs = create_node_cfgs(3, &chanmon_cfgs);
+	let config = test_default_channel_config();
+	let node_chanmgrs = create_node_chanmgrs(3, &node_cfgs, &[Some(config.clone()), Some(config.clone()), Some(config)]);
+	let nodes = create_network(3, &node_cfgs, &node_chanmgrs);
+	for n in nodes.iter() {
+		*n.connect_style.borrow_mut() = ConnectStyle::FullBlockViaListen;
+	}
+	let node_a_id = nodes[0].node.get_our_node_id();
+	create_announced_chan_between_nodes(&nodes, 0, 1);
+	let chan_bc = create_announced_chan_between_nodes(&nodes, 1, 2).2;
+	let start = nodes.iter().map(|n| n.best_block_info().1).max().unwrap() + 1;
+	for n in nodes.iter() {
+		connect_blocks(n, start - n.best_block_info().1);
+	}
+	let mut splice_tx: Option<Transaction> = None;
+	if splice == 1 {
+		let outputs = vec![TxOut { value: Amount::from_sat(1_000), script_pubkey: nodes[1].wallet_source.get_change_script().unwrap() }];
+		let contribution = initiate_splice_out(&nodes[1], &nodes[2], chan_bc, outputs).unwrap();
+		let (tx, _) = splice_channel(&nodes[1], &nodes[2], chan_bc, contribution);
+		splice_tx = Some(tx);
+	}
+	// first payment B -> C puts the channel into awaiting-RAA; C never answers
+	let (route, h1, _, s1) = get_route_and_payment_hash!(nodes[1], nodes[2], 100_000);
+	nodes[1].node.send_payment_with_route(route, h1, RecipientOnionFields::secret_only(s1, 100_000), PaymentId(h1.0)).unwrap();
+	let _ = nodes[1].node.get_and_clear_pending_msg_events();
+	nodes[1].chain_monitor.added_monitors.lock().unwrap().clear();
+	// second payment A -> B -> C is held in B's holding cell
+	let (route, h2, _, s2) = get_route_and_payment_hash!(nodes[0], nodes[2], 100_000);
+	nodes[0].node.send_payment_with_route(route, h2, RecipientOnionFields::secret_only(s2, 100_000), PaymentId(h2.0)).unwrap();
+	check_added_monitors(&nodes[0], 1);
+	let ev = SendEvent::from_event(nodes[0].node.get_and_clear_pending_msg_events().remove(0));
+	nodes[1].node.handle_update_add_htlc(node_a_id, &ev.msgs[0]);
+	do_commitment_signed_dance(&nodes[1], &nodes[0], &ev.commitment_msg, false, false);
+	nodes[1].node.process_pending_htlc_forwards();
+	nodes[1].chain_monitor.added_monitors.lock().unwrap().clear();
+	let _ = nodes[1].node.get_and_clear_pending_msg_events();
+	let mut out_cltv = 0u32;
+	for ch in nodes[1].node.list_channels().iter() {
+		for h in ch.pending_outbound_htlcs.iter() {
+			if h.payment_hash == h2 {
+				out_cltv = h.cltv_expiry;
+			}
+		}
+	}
+	if out_cltv == 0 {
+		o.fail("harness: forwarded HTLC not found in the holding cell");
+		std::mem::forget(nodes);
+		return o;
+	}
+	let timeout_height = out_cltv - lgp;
+	let splice_conf_height = (timeout_height as i64 + off - (ard as i64 - 1)) as u32;
+	let mut failed_at: Option<u32> = None;
+	while nodes[1].best_block_info().1 < out_cltv + 3 {
+		let next = nodes[1].best_block_info().1 + 1;
+		if splice_tx.is_some() && next == splice_conf_height {
+			mine_transaction(&nodes[1], splice_tx.as_ref().unwrap());
+		} else {
+			connect_blocks(&nodes[1], 1);
+		}
+		nodes[1].node.process_pending_htlc_forwards();
+		let evs = nodes[1].node.get_and_clear_pending_events();
+		let mut msgs = nodes[1].node.get_and_clear_pending_msg_events();
+		nodes[1].node.process_pending_htlc_forwards();
+		msgs.extend(nodes[1].node.get_and_clear_pending_msg_events());
+		nodes[1].chain_monitor.added_monitors.lock().unwrap().clear();
+		let ev_fail = evs.iter().any(|e| matches!(e, Event::HTLCHandlingFailed { .. }));
+		let msg_fail = msgs.iter().any(|m| matches!(m, MessageSendEvent::UpdateHTLCs { node_id, updates, .. } if *node_id == node_a_id && !updates.update_fail_htlcs.is_empty()));
+		if ev_fail || msg_fail {
+			failed_at = Some(nodes[1].best_block_info().1);
+			break;
+		}
+	}
+	let _ = take_broadcasts(&nodes[1]);
+	o.obs("out_cltv", out_cltv);
+	o.obs("model_failback_at", timeout_height);
+	o.obs("failback_at", failed_at.map(|h| h as i64).unwrap_or(-1));
+	o.obs("splice_conf_height", if splice == 1 { splice_conf_height as i64 } else { -1 });
+	match failed_at {
+		None => o.fail("an HTLC held in the holding cell expired without being forwarded or failed back upstream"),
+		Some(f) => {
+			if f > timeout_height {
+				o.fail("held HTLC failed back later than outgoing expiry - grace period");
+			}
+		},
+	}
+	for n in nodes.iter() {
+		let _ = n.node.get_and_clear_pending_events();
+		let _ = n.node.get_and_clear_pending_msg_events();
+		n.chain_monitor.added_monitors.lock().unwrap().clear();
+	}
+	std::mem::forget(nodes);
+	o
+}
+
 fn run_one(name: &str, a: i64, b: i64) {
 	let r = panic::catch_unwind(AssertUnwindSafe(|| match name {
 		"recv" => scen_recv(a),
@@ -666,6 +880,8 @@ fn run_one(name: &str, a: i64, b: i64) {
 		"race" => scen_race(a, b),
 		"subdelta" => scen_subdelta(a, b),
 		"reload_burial" => scen_reload_burial(a, b),
+		"mppdeadline" => scen_mppdeadline(a, b),
+		"holdcell" => scen_holdcell(a, b),
 		_ => {
 			let mut o = Out::new(name, String::new());
 			o.fail("unknown scenario");
@@ -719,6 +935,15 @@ fn main() {
 			if od >= cfg || od >= 12 {
 				run_one("subdelta", cfg, od);
 			}
+		}
+	}
+	run_one("holdcell", 0, 0);
+	for off in [-2i64, -1, 0, 1, 2] {
+		run_one("holdcell", 1, off);
+	}
+	for order in [0i64, 1] {
+		for gap in [0i64, 1, 4, 12] {
+			run_one("mppdeadline", order, gap);
 		}
 	}
 	for confs in 1..=(ard + 1) {
